@@ -185,6 +185,7 @@ class StubDist(_Univariate, _ABC):
     COLIDX = {}
     FITS = []
     RAISE_ON = set()
+    RAISE_KIND = 'RuntimeError'
     fitted = False
 
     def __init__(self, *a, **k):
@@ -194,7 +195,7 @@ class StubDist(_Univariate, _ABC):
         name = getattr(X, 'name', None)
         type(self).FITS.append((type(self).__name__, name, np.asarray(X, dtype=object).copy()))
         if name in StubDist.RAISE_ON:
-            raise RuntimeError(f'cannot fit {name}')
+            raise {'RuntimeError': RuntimeError, 'ValueError': ValueError, 'Exception': Exception}.get(StubDist.RAISE_KIND, RuntimeError)(f'cannot fit {name}')
         self._stub = StubUni(StubDist.COLIDX[name])
         self.fitted = True
 
